@@ -163,6 +163,25 @@ def mutate(rng, bs):
     return bytes(b), 'insert'
 
 
+def respell(rng, m):
+    """the same expression in a non-canonical but legal JSON spelling: `"annots": []` / `"args": []` present where the
+    canonical shape omits the key (mich.normalize(respell(m)) == m)"""
+    if isinstance(m, list):
+        return [respell(rng, x) for x in m]
+    if 'prim' not in m:
+        return dict(m)
+    out = {'prim': m['prim']}
+    if 'args' in m:
+        out['args'] = [respell(rng, a) for a in m['args']]
+    elif rng.random() < 0.5:
+        out['args'] = []
+    if 'annots' in m:
+        out['annots'] = list(m['annots'])
+    elif rng.random() < 0.6:
+        out['annots'] = []
+    return out
+
+
 def run(ctx):
     st = extract.generate(PROP)
     ctx.prepare_lean(st)
@@ -212,6 +231,42 @@ def run(ctx):
         seen[b] = t
         if model is not None and model[i] != impl:
             ctx.mismatch('forge', t, impl, model[i])
+    # ---- the same trees in a non-canonical JSON spelling (empty `annots` / `args` lists present): same bytes demanded
+    n_spell = 0
+    for i, (t, b) in enumerate(zip(trees, forged)):
+        if b is None or i % 3 or mich.size(t) < 2:
+            continue
+        sp = respell(ctx.rng, t)
+        if sp == t:
+            continue
+        n_spell += 1
+        ctx.case({'stream': 'forge-respelled', 'tree': sp if mich.size(t) < 12 else f'<{mich.size(t)} nodes>'}, nontrivial=True)
+        try:
+            b2 = forge_micheline(sp)
+        except Exception as e:
+            b2 = f'{type(e).__name__}: {e}'
+        if b2 != b:
+            # shrink: respell one node at a time is overkill; report the smallest offending subtree
+            def smallest(u, su):
+                if isinstance(u, list):
+                    kids = list(zip(u, su))
+                elif 'prim' in u:
+                    kids = list(zip(u.get('args', []), su.get('args', [])))
+                else:
+                    kids = []
+                for a, sa in kids:
+                    try:
+                        bad = forge_micheline(sa) != forge_micheline(a)
+                    except Exception:
+                        bad = True
+                    if bad:
+                        return smallest(a, sa)
+                return u, su
+            u, su = smallest(t, sp)
+            ctx.violation(f'forge-depends-on-json-spelling:{mich.to_line(u)[:60]}',
+                          f'forge_micheline({su}) = {forge_micheline(su).hex() if not isinstance(b2, str) else b2}, but the same expression spelled {u} forges to {forge_micheline(u).hex()} '
+                          '(an empty "annots"/"args" list is the absence of annotations/arguments)', {'tree': su, 'canonical': u})
+    ctx.extra['respelled_trees'] = n_spell
     # ---- unforge stream: valid encodings + mutants
     inputs = []
     for b in forged:
